@@ -132,3 +132,232 @@ Example C21_witness_hyp :
   no_sub 1%nat [OSub 0%nat; ONext 2] /\ live (g_run (g_init 0) [OSub 0%nat; ONext 2]) = true
   /\ last_next 0 [OSub 0%nat; ONext 2] = 2.
 Proof. split; [intros p [<-|[<-|[]]]; discriminate|split; reflexivity]. Qed.
+
+(* ---- WHO RECEIVES WHICH NOTIFICATIONS on every call tree: observers that subscribe, unsubscribe,
+        emit, terminate or dispose from inside their callbacks (Subjects/BroadcastTreeFacts.v, shared
+        with C20; [entitled], [vals], [pendn], [sub_ev], [end_ev]: Subjects/SubjectTreeFacts.v) ----
+   [tree_entitled KBehavior v0 o log] reads the chronological log of calls with the specification's
+   functions: o's FIRST subscribe call is answered with [greet KBehavior g] -- the CURRENT VALUE if
+   the calls logged before it left the subject live, else the terminal notification /
+   DisposedException --, every later call p with [bcast KBehavior g p].  At every moment of every run
+        received ++ about to be delivered ++ dropped   is a PERMUTATION of the entitlement,
+   nothing was dropped while o's wrapper is live, no terminal notification was dropped unless an
+   unsubscribe call for o occurs in the log.  Order is not claimed (deliveries are depth first). *)
+From RxVerif Require Import Subjects.SubjectTreeFacts Subjects.BroadcastTreeFacts.
+
+Theorem C21_tree_notifications_are_the_entitlement :
+  forall (A : Type) (pynone : A) (react : nat -> nat -> list (@op A)) (v0 : A) (top : list (@op A)) (fuel o : nat),
+    let c := run (behavior_cls pynone) react fuel (init_cfg v0 top) in
+    exists dropped,
+      Permutation.Permutation (view o (log_of c) ++ pend o (c_k c) ++ dropped) (tree_entitled KBehavior v0 o (log_of c)) /\
+      (forall os, c_obs c o = Some os -> a_stopped os = false -> dropped = []) /\
+      (existsb (unsub_ev o) (log_of c) = false -> has_term dropped = false).
+Proof. exact (fun A pynone react v0 => tree_notifications pynone KBehavior behavior_not_async react v0). Qed.
+Print Assumptions C21_tree_notifications_are_the_entitlement.
+
+Theorem C21_tree_entitled_to_at_most_one_terminal :
+  forall (A : Type) (v0 : A) (o : nat) (log : list (@event A)),
+    (nterm (tree_entitled KBehavior v0 o log) <= 1)%nat.
+Proof. exact (fun A v0 => tree_entitled_term_once KBehavior behavior_not_async v0). Qed.
+Print Assumptions C21_tree_entitled_to_at_most_one_terminal.
+
+(* THE VALUES: what o received ++ is about to receive ++ dropped is a permutation of
+        greeting ++ the emissions made while o was subscribed
+   where [greeting v0 o log] is the subject's current value at o's first subscribe call if the
+   subject was live then (else nothing) and [entitled o log] is C20's entitlement: the arguments of
+   the on_next calls made after o's subscribe call and before any terminating call. *)
+Theorem C21_tree_values_are_greeting_plus_emissions_while_subscribed :
+  forall (A : Type) (pynone : A) (react : nat -> nat -> list (@op A)) (v0 : A) (top : list (@op A)) (fuel o : nat),
+    let c := run (behavior_cls pynone) react fuel (init_cfg v0 top) in
+    exists dropped,
+      Permutation.Permutation (vals (view o (log_of c)) ++ pendn o (c_k c) ++ dropped)
+                              (greeting v0 o (log_of c) ++ entitled o (log_of c)) /\
+      (forall os, c_obs c o = Some os -> a_stopped os = false -> dropped = []).
+Proof. exact (@behavior_tree_values). Qed.
+Print Assumptions C21_tree_values_are_greeting_plus_emissions_while_subscribed.
+
+(* finished run, wrapper still live: EXACTLY (as a multiset) the greeting and every emission made
+   while subscribed, each once *)
+Theorem C21_tree_live_observer_received_greeting_and_every_emission :
+  forall (A : Type) (pynone : A) (react : nat -> nat -> list (@op A)) (v0 : A) (top : list (@op A)) (fuel o : nat) os,
+    let c := run (behavior_cls pynone) react fuel (init_cfg v0 top) in
+    c_k c = [] -> c_obs c o = Some os -> a_stopped os = false ->
+    Permutation.Permutation (vals (view o (log_of c))) (greeting v0 o (log_of c) ++ entitled o (log_of c)).
+Proof. exact (@behavior_tree_finished). Qed.
+Print Assumptions C21_tree_live_observer_received_greeting_and_every_emission.
+
+(* the multiset of values is the value part of the full entitlement *)
+Theorem C21_tree_entitlement_values :
+  forall (A : Type) (v0 : A) (o : nat) (log : list (@event A)),
+    Permutation.Permutation (vals (tree_entitled KBehavior v0 o log)) (greeting v0 o log ++ entitled o log).
+Proof. exact (@vals_entitled_behavior). Qed.
+Print Assumptions C21_tree_entitlement_values.
+
+(* soundness, declaratively: a value delivered to o is the argument of an on_next call made AFTER
+   o's subscribe call and before any terminating call, OR it is the greeting: the LATEST on_next
+   value (the initial value if none) at the moment of o's FIRST subscribe call, made before any
+   terminating call ([calls_of p1] = the calls logged before it, made by anybody) *)
+Theorem C21_tree_delivery_was_the_greeting_or_subscribed_before_the_call :
+  forall (A : Type) (pynone : A) (react : nat -> nat -> list (@op A)) (v0 : A) (top : list (@op A)) (fuel o : nat) (v : A),
+    let c := run (behavior_cls pynone) react fuel (init_cfg v0 top) in
+    In (Next v) (view o (log_of c)) ->
+    (exists p1 p2 p3, log_of c = p1 ++ EOp (OSub o) :: p2 ++ EOp (ONext v) :: p3 /\
+                      existsb end_ev (p1 ++ EOp (OSub o) :: p2) = false) \/
+    (exists p1 p3, log_of c = p1 ++ EOp (OSub o) :: p3 /\ existsb (sub_ev o) p1 = false /\
+                   existsb end_ev p1 = false /\ v = last_next v0 (calls_of p1)).
+Proof. exact (@behavior_tree_value_origin). Qed.
+Print Assumptions C21_tree_delivery_was_the_greeting_or_subscribed_before_the_call.
+
+(* THE GREETING COMES AT ONCE AND IS THE LATEST VALUE, on trees: when o's first subscribe call is
+   made (by the driver or from inside any callback, e.g. inside the delivery of the very value) and
+   no terminating call was made before, the NEXT entry of the log is the delivery to o of the last
+   on_next value logged before the call (the initial value if none) -- before any later
+   notification, before any re-entrant call.  (rest = []: the machine has not yet taken that step) *)
+Theorem C21_tree_greeting_is_the_latest_value_at_once :
+  forall (A : Type) (pynone : A) (react : nat -> nat -> list (@op A)) (v0 : A) (top : list (@op A)) (fuel o : nat)
+         (p1 rest : list (@event A)),
+    let c := run (behavior_cls pynone) react fuel (init_cfg v0 top) in
+    log_of c = p1 ++ EOp (OSub o) :: rest -> existsb (sub_ev o) p1 = false -> existsb end_ev p1 = false ->
+    (rest = [] /\ c_k c <> []) \/ exists rest', rest = EGot o (Next (last_next v0 (calls_of p1))) :: rest'.
+Proof. exact (@behavior_tree_greeting_at_once). Qed.
+Print Assumptions C21_tree_greeting_is_the_latest_value_at_once.
+
+(* TERMINAL NOTIFICATIONS.  o subscribed, then -- before any terminating call -- on_error(e) /
+   on_completed() is called by the driver or from inside any callback, and no unsubscribe call for o
+   is made in the run: when the run has finished o has received that terminal EXACTLY ONCE and
+   NOTHING AFTER it *)
+Theorem C21_tree_terminal_reaches_every_subscribed_observer :
+  forall (A : Type) (pynone : A) (react : nat -> nat -> list (@op A)) (v0 : A) (top : list (@op A)) (fuel o : nat)
+         (p1 p2 p3 : list (@event A)) (p : @op A) (t : ev A),
+    let c := run (behavior_cls pynone) react fuel (init_cfg v0 top) in
+    c_k c = [] ->
+    log_of c = p1 ++ EOp (OSub o) :: p2 ++ EOp p :: p3 ->
+    existsb end_ev (p1 ++ EOp (OSub o) :: p2) = false -> is_term_call p t ->
+    existsb (unsub_ev o) (log_of c) = false ->
+    exists vs, view o (log_of c) = map Next vs ++ [t].
+Proof. exact (fun A pynone react v0 => tree_terminal_call_reaches pynone KBehavior behavior_not_async react v0). Qed.
+Print Assumptions C21_tree_terminal_reaches_every_subscribed_observer.
+
+Theorem C21_tree_terminal_is_never_lost :
+  forall (A : Type) (pynone : A) (react : nat -> nat -> list (@op A)) (v0 : A) (top : list (@op A)) (fuel o : nat)
+         (p1 p2 p3 : list (@event A)) (p : @op A) (t : ev A),
+    let c := run (behavior_cls pynone) react fuel (init_cfg v0 top) in
+    log_of c = p1 ++ EOp (OSub o) :: p2 ++ EOp p :: p3 ->
+    existsb end_ev (p1 ++ EOp (OSub o) :: p2) = false -> is_term_call p t ->
+    existsb (unsub_ev o) (log_of c) = false ->
+    In t (view o (log_of c)) \/ In t (pend o (c_k c)).
+Proof. exact (fun A pynone react v0 => tree_terminal_call_not_lost pynone KBehavior behavior_not_async react v0). Qed.
+Print Assumptions C21_tree_terminal_is_never_lost.
+
+(* LATE SUBSCRIBERS on trees: o's first subscribe call is made after an on_error / on_completed /
+   dispose call (from anywhere in the tree).  The greeting is ONE terminal notification (after
+   on_error the error, after on_completed the completion -- in neither case the value --, after
+   dispose DisposedException: C21_late_subscriber_terminal / _disposed), it is delivered at once,
+   and it is ALL o ever receives: no value, neither before nor after. *)
+Theorem C21_tree_late_subscriber_gets_only_the_terminal_at_once :
+  forall (A : Type) (pynone : A) (react : nat -> nat -> list (@op A)) (v0 : A) (top : list (@op A)) (fuel o : nat)
+         (p1 rest : list (@event A)),
+    let c := run (behavior_cls pynone) react fuel (init_cfg v0 top) in
+    log_of c = p1 ++ EOp (OSub o) :: rest -> existsb (sub_ev o) p1 = false ->
+    live (gev (g_init v0) p1) = false ->
+    exists n, greet KBehavior (gev (g_init v0) p1) = [n] /\ is_terminal n = true /\
+      ((rest = [] /\ c_k c <> [] /\ view o (log_of c) = []) \/
+       ((exists rest', rest = EGot o n :: rest') /\ view o (log_of c) = [n])).
+Proof. exact (fun A pynone react v0 => tree_late_subscriber pynone KBehavior behavior_not_async react v0). Qed.
+Print Assumptions C21_tree_late_subscriber_gets_only_the_terminal_at_once.
+
+(* [gev] is the specification's status function on the calls of the log; "not live" = an
+   on_error / on_completed / dispose call was logged *)
+Theorem C21_tree_status_of_a_log :
+  forall (A : Type) (log : list (@event A)) (g : @gstate A),
+    gev g log = g_run g (calls_of log) /\ live (gev g log) = live g && negb (existsb end_ev log).
+Proof. exact (fun A log g => conj (gev_g_run log g) (gev_live log g)). Qed.
+Print Assumptions C21_tree_status_of_a_log.
+
+(* REFUTED proposal: "an observer subscribed (and not unsubscribed) WHEN on_error is called receives
+   the error".  Observer 0 unsubscribes observer 1 inside its on_error callback (its 2nd callback,
+   the 1st being the greeting): 1 is entitled to [Next 7; Err 3], the run is finished, 1 has only
+   the greeting (the real BehaviorSubject does the same).  Hence the "no unsubscribe call for o"
+   hypothesis of C21_tree_terminal_reaches_every_subscribed_observer. *)
+Example C21_tree_terminal_to_everyone_subscribed_at_the_call_refuted :
+  let c := run (behavior_cls 0) (react_tbl [(0%nat, [[]; [OUnsub 1%nat]])]) 100 (init_cfg 7 [OSub 0%nat; OSub 1%nat; OErr 3]) in
+  c_k c = [] /\
+  log_of c = [EOp (OSub 0%nat); EGot 0%nat (Next 7)] ++ EOp (OSub 1%nat) :: [EGot 1%nat (Next 7)] ++ EOp (OErr 3) ::
+             [EGot 0%nat (Err 3); EOp (OUnsub 1%nat)] /\
+  existsb (unsub_ev 1%nat) ([EOp (OSub 0%nat); EGot 0%nat (Next 7)] ++ EOp (OSub 1%nat) :: [EGot 1%nat (Next 7)]) = false /\
+  tree_entitled KBehavior 7 1%nat (log_of c) = [Next 7; Err 3] /\ view 1%nat (log_of c) = [Next 7].
+Proof. vm_compute. repeat split. Qed.
+
+(* trees: observer 0 subscribes observer 1 from inside its callback for the value 5: 1 is greeted at
+   once with 5 (the value is stored before it is delivered), is not in the snapshot of that
+   emission (it does not get 5 twice) and receives the later 6: greeting [5] ++ emissions [6];
+   the run is finished and 1's wrapper live *)
+Example C21_witness_tree_greeting_inside_a_callback :
+  let c := run (behavior_cls 0) (react_tbl [(0%nat, [[]; [OSub 1%nat]])]) 100 (init_cfg 7 [OSub 0%nat; ONext 5; ONext 6]) in
+  c_k c = [] /\ (exists os, c_obs c 1%nat = Some os /\ a_stopped os = false) /\
+  log_of c = [EOp (OSub 0%nat); EGot 0%nat (Next 7); EOp (ONext 5); EGot 0%nat (Next 5)] ++ EOp (OSub 1%nat) ::
+             [EGot 1%nat (Next 5); EOp (ONext 6); EGot 0%nat (Next 6); EGot 1%nat (Next 6)] /\
+  last_next 7 (calls_of [EOp (OSub 0%nat); EGot 0%nat (Next 7); EOp (ONext 5); EGot 0%nat (Next 5)]) = 5 /\
+  greeting 7 1%nat (log_of c) = [5] /\ entitled 1%nat (log_of c) = [6] /\ vals (view 1%nat (log_of c)) = [5; 6].
+Proof. vm_compute. split; [reflexivity|]. split; [eexists; split; reflexivity|repeat split]. Qed.
+
+(* the terminating call made from INSIDE a callback: observer 0 calls on_error(7) inside its
+   on_next(5); observer 1 (no unsubscribe call) receives greeting then the error, exactly once *)
+Example C21_witness_tree_terminal_from_a_callback :
+  let c := run (behavior_cls 0) (react_tbl [(0%nat, [[]; [OErr 7]])]) 100 (init_cfg 7 [OSub 0%nat; OSub 1%nat; ONext 5]) in
+  c_k c = [] /\
+  log_of c = [EOp (OSub 0%nat); EGot 0%nat (Next 7)] ++ EOp (OSub 1%nat) ::
+             [EGot 1%nat (Next 7); EOp (ONext 5); EGot 0%nat (Next 5)] ++ EOp (OErr 7) :: [EGot 0%nat (Err 7); EGot 1%nat (Err 7)] /\
+  existsb end_ev ([EOp (OSub 0%nat); EGot 0%nat (Next 7)] ++ EOp (OSub 1%nat) ::
+                  [EGot 1%nat (Next 7); EOp (ONext 5); EGot 0%nat (Next 5)]) = false /\
+  @is_term_call Z (OErr 7) (Err 7) /\ existsb (unsub_ev 1%nat) (log_of c) = false /\
+  view 1%nat (log_of c) = [Next 7; Err 7].
+Proof. vm_compute. repeat split. Qed.
+
+(* late subscription from inside the delivery of the completion: 1 gets Done at once, no value *)
+Example C21_witness_tree_late_subscriber :
+  let c := run (behavior_cls 0) (react_tbl [(0%nat, [[]; [OSub 1%nat]])]) 100 (init_cfg 7 [OSub 0%nat; ODone]) in
+  log_of c = [EOp (OSub 0%nat); EGot 0%nat (Next 7); EOp ODone; EGot 0%nat Done] ++ EOp (OSub 1%nat) :: [EGot 1%nat Done] /\
+  existsb (sub_ev 1%nat) [EOp (OSub 0%nat); EGot 0%nat (Next 7); EOp ODone; EGot 0%nat Done] = false /\
+  live (gev (g_init 7) [EOp (OSub 0%nat); EGot 0%nat (Next 7); EOp ODone; EGot 0%nat Done]) = false /\
+  greet KBehavior (gev (g_init 7) [EOp (OSub 0%nat); EGot 0%nat (Next 7); EOp ODone; EGot 0%nat Done]) = [Done] /\
+  view 1%nat (log_of c) = [Done].
+Proof. vm_compute. repeat split. Qed.
+
+(* ---- ORDER on call trees whose callbacks do not emit (callbacks that subscribe, unsubscribe,
+        dispose -- themselves or others, also inside a delivery loop or inside the greeting) ----
+   what o received followed by what is about to be handed to it is an ordered SUBSEQUENCE of its
+   entitlement -- the greeting FIRST, then the notifications of the later calls in call order --
+   and for a live wrapper it IS the entitlement. *)
+Theorem C21_tree_call_order_when_callbacks_do_not_emit :
+  forall (A : Type) (pynone : A) (react : nat -> nat -> list (@op A)) (v0 : A),
+    (forall o j p, In p (react o j) -> is_emission p = false) ->
+    forall (top : list (@op A)) (fuel o : nat),
+    let c := run (behavior_cls pynone) react fuel (init_cfg v0 top) in
+    subseq (view o (log_of c) ++ pend o (c_k c)) (tree_entitled KBehavior v0 o (log_of c)) /\
+    (forall os, c_obs c o = Some os -> a_stopped os = false ->
+       view o (log_of c) ++ pend o (c_k c) = tree_entitled KBehavior v0 o (log_of c)).
+Proof. exact (fun A pynone react v0 => tree_ordered pynone KBehavior behavior_not_async react v0). Qed.
+Print Assumptions C21_tree_call_order_when_callbacks_do_not_emit.
+
+Theorem C21_tree_live_observer_received_its_entitlement_in_call_order :
+  forall (A : Type) (pynone : A) (react : nat -> nat -> list (@op A)) (v0 : A),
+    (forall o j p, In p (react o j) -> is_emission p = false) ->
+    forall (top : list (@op A)) (fuel o : nat) os,
+    let c := run (behavior_cls pynone) react fuel (init_cfg v0 top) in
+    c_k c = [] -> c_obs c o = Some os -> a_stopped os = false ->
+    view o (log_of c) = tree_entitled KBehavior v0 o (log_of c).
+Proof. exact (fun A pynone react v0 => tree_ordered_finished pynone KBehavior behavior_not_async react v0). Qed.
+Print Assumptions C21_tree_live_observer_received_its_entitlement_in_call_order.
+
+(* a table that passes [quiet_tbl] (C20_quiet_tables_do_not_emit): observer 0 subscribes observer 1
+   inside its callback for 5 and unsubscribes observer 2 inside its callback for 6; 1 (live) received
+   greeting 5 then 6 = its entitlement in order; 2 received [7; 5], a subsequence of [7; 5; 6] *)
+Example C21_witness_tree_call_order :
+  let t := [(0%nat, [[]; [OSub 1%nat]; [OUnsub 2%nat]])] in
+  let c := run (behavior_cls 0) (react_tbl t) 100 (init_cfg 7 [OSub 0%nat; OSub 2%nat; ONext 5; ONext 6]) in
+  quiet_tbl t = true /\ c_k c = [] /\
+  (exists os, c_obs c 1%nat = Some os /\ a_stopped os = false) /\
+  view 1%nat (log_of c) = [Next 5; Next 6] /\ tree_entitled KBehavior 7 1%nat (log_of c) = [Next 5; Next 6] /\
+  view 2%nat (log_of c) = [Next 7; Next 5] /\ tree_entitled KBehavior 7 2%nat (log_of c) = [Next 7; Next 5; Next 6].
+Proof. vm_compute. split; [reflexivity|]. split; [reflexivity|]. split; [eexists; split; reflexivity|repeat split]. Qed.
